@@ -9,6 +9,7 @@ pub mod c07;
 pub mod c08;
 pub mod c12;
 pub mod c13;
+pub mod c14;
 pub mod c15;
 pub mod c16;
 pub mod c17;
@@ -59,6 +60,7 @@ pub fn run(prop: &str, tier: Tier, seed: u64, out: &str) -> bool {
         "C11" => baseline_hist::run(baseline_hist::Which::C11, tier, seed, out),
         "C12" => c12::run(tier, seed, out),
         "C13" => c13::run(tier, seed, out),
+        "C14" => c14::run(tier, seed, out),
         "C15" => c15::run(tier, seed, out),
         "C16" => c16::run(tier, seed, out),
         "C17" => c17::run(tier, seed, out),
